@@ -29,6 +29,23 @@ TEXT = {
               "the object's own kind or the explicit unknown tag, and a well-formed one. The JSON field names/values and the decode arms are tied to serde's actual "
               "output and input by the json stream."),
         note=COMMON_NOTE + "Modelled: serde/serde_json text layer (compared, not modelled); Tag↔SerdeTag arms transcribed by hand."),
+    "C17": dict(
+        design_ref="§7 C17",
+        technique="Lean 4 proof (list induction, greatest-lower-bound lemmas) about an executable model of the summary functions; differential execution against summarise_events_to_env and events_to_simple_format",
+        text=("Theorems for every batch: the fold of pairwise common prefixes is the greatest lower bound of all trunks (COMMON is a prefix of every trunk, the longest "
+              "such, and absent only if they share not even the root); under a non-empty prefix strip succeeds and join restores the path (entry_faithful); a variable "
+              "exists iff some pathed event has a kind of its bucket, its entries are exactly those events' entries, strictly increasing in byte order; events without "
+              "path or kind contribute nothing; the line format is the concatenation of per-event lines (paths x kinds). Model tied to the code by the summary stream, "
+              "which also evaluates the property on the real output."),
+        note=COMMON_NOTE + "Modelled: std::path component semantics."),
+    "C18": dict(
+        design_ref="§7 C18",
+        technique="Lean 4 proof about an executable model of to_spawnable / interpret_command_args; differential execution plus real spawns through start_job",
+        text=("Theorems: argv(Exec prog args) = prog :: args with every string unchanged; argv(Shell) = shell, options, program option, command, extra args in that order; "
+              "session wins over grouped and KillOnDrop is always present; CLI: -n / --shell=none give Exec verbatim, otherwise Shell with the single-space join; "
+              "split_ascii_whitespace yields no empty or whitespace-containing word and loses nothing else. Tied by the spawn stream; byte-for-byte delivery and the "
+              "effect of group/session wrappers are validated with real children (partial: OS behaviour is not proved)."),
+        note=COMMON_NOTE + "Modelled/validated only: execve, process-wrap wrappers, /proc."),
 }
 
 NOT_APPLICABLE = {}
